@@ -46,5 +46,10 @@ def run(ctx):
     import e2e_common as E
     traces = ctx.e2e(E.plan(ctx, [("blackhole", 10)]))
     ctx.validate_families(traces, "Trace_Liveness", E.LIVE_KINDS)
+    # live handshakes (null TLS sessions carrying the real parameter blocks) in which the block one side sends is rewritten
+    # on its way: the receiving endpoint's verdict must be the specification's, including the connection-id
+    # authentication of RFC 9000 7.3 (with and without Retry)
+    t2 = ctx.e2e([("tp_handshake", 29 if q else 29 * 6)])
+    ctx.validate_families(t2, "Trace_TpHandshake", ["reset", "dg", "tp_tampered", "handshake", "conn_closed", "sim_end", "panic", "stall"], primary_only=False)
     ctx.assume("decoder level plus the negotiated idle timeout on live connections; connection-id authentication against the handshake (RFC 9000 7.3, e.g. a missing retry_source_connection_id after a Retry) needs a TLS provider that rewrites the peer's parameter block and is not exercised; flow-control and stream limits of live connections are decided under C03/C04/C07")
     ctx.assume("named either-verdict ranges: max_udp_payload_size > 65527, non-empty disable_active_migration, preferred_address with zero-length cid or no address, original_destination_connection_id < 8 bytes, retry_source_connection_id < 4 bytes, dc extension parameters")
